@@ -482,7 +482,7 @@ func tryGoReplay(g *Gen, vdir, pid string, r *Result, dir, base string) *goRepla
 	qf := filepath.Join(dir, base+".values.smt2")
 	os.WriteFile(qf, []byte(text), 0o644)
 	defer os.Remove(qf)
-	ans, out, _ := runSolver(context.Background(), solvers[0], 30, qf)
+	ans, out, _ := raceSolvers(qf, 60)
 	if ans != "sat" {
 		fmt.Fprintf(&log, "could not re-obtain the model for value extraction (%s)\n", ans)
 		rep.Log = log.String()
@@ -625,6 +625,12 @@ func tryGoReplay(g *Gen, vdir, pid string, r *Result, dir, base string) *goRepla
 		rep.Log = log.String()
 		return rep
 	}
+	// scalar functions: evaluate the clause itself on the concrete inputs and the REAL outputs
+	if ok, decided := concreteClauseCheck(o, fx, rp, nodes, outs, &log); decided {
+		rep.Reproduced = ok
+		rep.Log = log.String()
+		return rep
+	}
 	// compare predicted and real results
 	match := true
 	compared := 0
@@ -669,3 +675,94 @@ func tryGoReplay(g *Gen, vdir, pid string, r *Result, dir, base string) *goRepla
 }
 
 var _ = ssa.NaiveForm
+
+// concreteClauseCheck decides, for a function whose parameters and results are all integers or
+// booleans, whether the failed clause is false on the concrete inputs of the model and the
+// outputs the REAL function produced for them. The solver is used as an evaluator only: the
+// parameters and results are pinned to their concrete values.
+func concreteClauseCheck(o *Obligation, fx *FnExec, rp *replayPlan, nodes []*valueNode, outs string, log *strings.Builder) (reproduced, decided bool) {
+	if o.Expr == nil || o.Kind != "ensures" {
+		return false, false
+	}
+	fn := fx.fn
+	scalar := func(t types.Type) bool {
+		b, ok := t.Underlying().(*types.Basic)
+		return ok && b.Info()&(types.IsInteger|types.IsBoolean) != 0
+	}
+	for _, p := range fn.Params {
+		if !scalar(p.Type()) {
+			return false, false
+		}
+	}
+	rs := fn.Signature.Results()
+	if rs.Len() == 0 {
+		return false, false
+	}
+	for i := 0; i < rs.Len(); i++ {
+		if !scalar(rs.At(i).Type()) {
+			return false, false
+		}
+	}
+	var pins []string
+	var shown []string
+	for i, p := range fn.Params {
+		v := rp.vals[nodes[i].q[0]]
+		txt := v.atom
+		if v.isList() {
+			iv, _ := v.intVal()
+			txt = IntLit(iv).S
+		}
+		pins = append(pins, fmt.Sprintf("(assert (= %s %s))", fx.vals[p].S, txt))
+		shown = append(shown, fmt.Sprintf("%s=%s", p.Name(), txt))
+	}
+	results := make([]Term, rs.Len())
+	for i := 0; i < rs.Len(); i++ {
+		marker := fmt.Sprintf("GOVC-RESULT %d val=", i)
+		k := strings.Index(outs, marker)
+		if k < 0 {
+			return false, false
+		}
+		val := outs[k+len(marker):]
+		val = strings.TrimSpace(val[:strings.IndexByte(val, '\n')])
+		srt := fx.tc.SortOf(rs.At(i).Type())
+		results[i] = Term{val, srt}
+		if strings.HasPrefix(val, "-") {
+			results[i] = Term{"(- " + val[1:] + ")", srt}
+		}
+		shown = append(shown, fmt.Sprintf("result%d=%s", i, val))
+	}
+	var phi Term
+	func() {
+		defer func() {
+			if r := recover(); r != nil {
+				decided = false
+				phi = Term{}
+			}
+		}()
+		env := fx.specEnv(fx.entry, fx.entry, nil, false)
+		env.bindResults(fn.Signature, results)
+		phi = env.EvalBool(o.Expr)
+	}()
+	if phi.S == "" {
+		return false, false
+	}
+	saved := fx.sc.body
+	fx.sc.body = append(append([]string(nil), fx.sc.body[:fx.entryPos]...), pins...)
+	text := fx.sc.Render(len(fx.sc.body), phi, nil)
+	fx.sc.body = saved
+	f, _ := os.CreateTemp("", "govc-concrete-*.smt2")
+	f.WriteString(text)
+	f.Close()
+	defer os.Remove(f.Name())
+	ans, _, _ := runSolver(context.Background(), solvers[0], 20, f.Name())
+	fmt.Fprintf(log, "concrete run of the real function: %s\n", strings.Join(shown, " "))
+	switch ans {
+	case "unsat":
+		fmt.Fprintf(log, "REPRODUCED: the clause evaluates to false on these inputs and the outputs the real code returned\n")
+		return true, true
+	case "sat":
+		fmt.Fprintf(log, "the clause holds on this concrete run (the model relied on an over-approximated callee); not reproduced\n")
+		return false, true
+	}
+	return false, false
+}
